@@ -618,6 +618,60 @@ def rule_assembled_model_at_current_incumbent(eng, rep, rule="C16-7.assembled-gr
                 "without a re-fit (point replaced, re-sampled or appended)" % affine.fmt(g))
 
 
+def rule_rebased_locals_imply_a_shift(eng, rep, rule="C16-3b.a-local-re-based-by-the-incumbent-position-goes-with-a-base-shift"):
+    """The converse of the re-basing clause of C16-3: `v = v - S` with `S = <model>.xopt()` (relative position of the incumbent) expresses v relative to the *new* base point;
+    that is right only if the base really moves by S.  Every path from such a statement to the end of the function / the head of the enclosing loop passes
+    `shift_base(S)`; otherwise the step is stored relative to a base that never moved (deleted or conditional call)."""
+    sb = eng.fn("model.Model.shift_base")
+    n = 0
+    for fi in sorted(eng.prog.functions.values(), key=lambda f: f.fid):
+        if fi.is_lambda or fi.cls == "Model":
+            continue
+        cands = []
+        for node in eng.prog.own_nodes(fi):
+            tgt = val = None
+            if isinstance(node, ast.Assign) and len(node.targets) == 1 and isinstance(node.targets[0], ast.Name) and isinstance(node.value, ast.BinOp) and isinstance(node.value.op, ast.Sub) \
+                    and isinstance(node.value.left, ast.Name) and node.value.left.id == node.targets[0].id and isinstance(node.value.right, ast.Name):
+                tgt, val = node.targets[0].id, node.value.right
+            elif isinstance(node, ast.AugAssign) and isinstance(node.op, ast.Sub) and isinstance(node.target, ast.Name) and isinstance(node.value, ast.Name):
+                tgt, val = node.target.id, node.value
+            if tgt is not None:
+                cands.append((node, tgt, val))
+        if not cands:
+            continue
+        cfg = eng.cfg(fi)
+        for (node, tgt, S) in cands:
+            defs = cfg.defs_reaching(node, S.id)
+            dvals = [cfg.ast_of(d).value for d in defs if isinstance(cfg.ast_of(d), ast.Assign)]
+            if not dvals or not all(isinstance(v, ast.Call) and isinstance(v.func, ast.Attribute) and v.func.attr == "xopt" and not v.args and not v.keywords for v in dvals):
+                continue
+            n += 1
+            site = eng.where(fi, node)
+            shifts = set()
+            for ci in eng.calls_in(fi):
+                if any(t.fid == sb.fid for t in ci.targets) and ci.node.args and ekey(ci.node.args[0]) == S.id:
+                    shifts.add(cfg.cfg_node(ci.node))
+            me = cfg.cfg_node(node)
+            targets = [cfg.exit]
+            for (h, kind, st) in cfg.loops:
+                if me in cfg.loop_nodes(h):
+                    targets.append(h)
+            bad = None
+            for t in targets:
+                p = cfg.path_avoiding(me, t, shifts)
+                if p is not None and len(p) > 1:
+                    bad = p
+                    break
+            if not shifts or bad is not None:
+                rep.bad(rule, site, "%s|rebased-without-a-shift|%s" % (fi.fid, tgt),
+                        "`%s` is re-based by `%s` (the incumbent's relative position) but %s: the value is relative to a base point that did not move"
+                        % (tgt, S.id, "no shift_base(%s) follows in this function" % S.id if not shifts else "a path to the end of the iteration avoids shift_base(%s)" % S.id),
+                        path=cfg.describe_path(bad)[-6:] if bad else None)
+            else:
+                rep.ok(rule, site, "`%s = %s - %s` is followed on every path by shift_base(%s)" % (tgt, tgt, S.id, S.id))
+    rep.require_count(rule, "locals re-based by the incumbent's relative position", n, 1)
+
+
 def run(eng, rep):
     rep.explain("C16 (structural clauses): the read-set of Model.interpolation_matrix is computed over the call graph; a typestate data-flow over every Model method "
                 "proves that each write to a member of it is followed by factorisation_current = False on every path to the exit, and that only "
@@ -630,6 +684,7 @@ def run(eng, rep):
     rep.guarded(rule_invalidation, eng, rep)
     rep.guarded(rule_ownership, eng, rep)
     rep.guarded(rule_shift_affine, eng, rep)
+    rep.guarded(rule_rebased_locals_imply_a_shift, eng, rep)
     rep.guarded(rule_no_mutation_through_alias, eng, rep)
     rep.guarded(rule_solution_components, eng, rep)
     rep.guarded(rule_assembled_model_at_current_incumbent, eng, rep)
